@@ -12,7 +12,8 @@ package rapidcore
 
 //@ monitor Server s
 //@   lock s.mutex
-//@   protects invokeCtx, invokeTimeout, rapidPhase, runtimeState, cachedInitErrorResponse, initFailures, reservationCancel
+// (initFailures is assigned once, before the goroutine that reads it is started: not listed)
+//@   protects invokeCtx, invokeTimeout, rapidPhase, runtimeState, cachedInitErrorResponse, reservationCancel
 //@   owns invokeCtx: Token, ReplySent, ReplyStream, Direct
 //@   guarantee [reply-once] old(s.invokeCtx) != nil && s.invokeCtx == old(s.invokeCtx) && old(s.invokeCtx.ReplySent) ==> s.invokeCtx.ReplySent
 //@   guarantee [id-fixed] old(s.invokeCtx) != nil && s.invokeCtx == old(s.invokeCtx) ==> s.invokeCtx.Token.InvokeID == old(s.invokeCtx.Token.InvokeID)
@@ -186,7 +187,7 @@ package rapidcore
 //@ funcfield Server.InternalStateGetter
 //@   modifies nothing
 //@ func (*Server).FastInvoke$1
-//@   requires s != nil && i != nil
+//@   requires i != nil
 //@   ensures [nothing-dispatched-after-a-reset] old(s.invoker) == nil ==> delta(InvokeDispatched) == 0 && delta(InvokeDoneSent) == 1 && delta(DefaultErrorSent) == 0
 //@   ensures [dispatched-once] old(s.invoker) != nil ==> delta(InvokeDispatched) == 1 && delta(InvokeWaited) == 1 && first(InvokeDispatched) < first(InvokeWaited)
 //@   ensures [failure-answers-then-done] delta(InvokeFailedHere) == 1 ==> delta(DefaultErrorSent) == 1 && delta(InvokeDoneSent) == 1 && first(DefaultErrorSent) < first(InvokeDoneSent) && delta(CachedInitErrorRead) == 1
